@@ -17,7 +17,7 @@ func SummarySMSCode() (string, error) { return verif.FreshString("smscode", 6), 
 func SummaryRecoveryCodes() ([]string, error) {
 	codes := make([]string, 10)
 	for i := range codes {
-		codes[i] = verif.FreshString("recoverycode", 5) + "-" + verif.FreshString("recoverycode", 5)
+		codes[i] = verif.FreshString("recoverycode!alnum", 5) + "-" + verif.FreshString("recoverycode!alnum", 5)
 	}
 	return codes, nil
 }
